@@ -1,8 +1,45 @@
+(* Properties/C06.v — bisection: a returned root is a root in the bracket; the sign change is kept.
+   Statements only; every proof is `exact` of a lemma of Proofs/Bisect.v.  Unless a statement
+   quantifies over the instance, it is about the R instance of the model (exact arithmetic);
+   float behaviour is measured by the correspondence check. *)
 From Coq Require Import ZArith List Reals Lra Lia Bool.
 From SV Require Import Base.Num Base.Outcome Model.Poly Model.Solvers Proofs.Bisect.
 Import ListNotations.
 Local Open Scope R_scope.
 
+(* an Ok result lies in the caller's bracket and passes the residual gate (abstract target f) *)
+Theorem c06_sound : forall (f : R -> res R) lo init hi tol cap x,
+  bisection f {| b_lower := lo; b_init := init; b_upper := hi |} tol cap = Ok x ->
+  lo <= x <= hi /\ exists v, f x = Ok v /\ Rabs v < 1 / 10000.
+Proof. exact Proofs.Bisect.c06_sound. Qed.
+Check c06_sound : forall (f : R -> res R) lo init hi tol cap x,
+  bisection f {| b_lower := lo; b_init := init; b_upper := hi |} tol cap = Ok x ->
+  lo <= x <= hi /\ exists v, f x = Ok v /\ Rabs v < 1 / 10000.
+Print Assumptions c06_sound.
+
+(* SimplePolynomial: g = p (Root) or its derivative (Extrema) *)
+Theorem c06_sound_simple : forall (p : spoly R) lo init hi tol cap mode x,
+  s_bisection p {| b_lower := lo; b_init := init; b_upper := hi |} tol cap mode = Ok x ->
+  lo <= x <= hi /\ Rabs (eval_simple (s_target p mode) x) < 1 / 10000.
+Proof. exact Proofs.Bisect.c06_sound_simple. Qed.
+Check c06_sound_simple : forall (p : spoly R) lo init hi tol cap mode x,
+  s_bisection p {| b_lower := lo; b_init := init; b_upper := hi |} tol cap mode = Ok x ->
+  lo <= x <= hi /\ Rabs (eval_simple (s_target p mode) x) < 1 / 10000.
+Print Assumptions c06_sound_simple.
+
+(* IntermediatePolynomial: the target is the polynomial or its univariate derivative *)
+Theorem c06_sound_inter : forall (p : ipoly R) lo init hi tol cap mode x,
+  i_bisection p {| b_lower := lo; b_init := init; b_upper := hi |} tol cap mode = Ok x ->
+  lo <= x <= hi /\ exists q v, (if mode then i_derivate_univariate p else Ok p) = Ok q /\
+                               i_eval_univariate q x = Ok v /\ Rabs v < 1 / 10000.
+Proof. exact Proofs.Bisect.c06_sound_inter. Qed.
+Check c06_sound_inter : forall (p : ipoly R) lo init hi tol cap mode x,
+  i_bisection p {| b_lower := lo; b_init := init; b_upper := hi |} tol cap mode = Ok x ->
+  lo <= x <= hi /\ exists q v, (if mode then i_derivate_univariate p else Ok p) = Ok q /\
+                               i_eval_univariate q x = Ok v /\ Rabs v < 1 / 10000.
+Print Assumptions c06_sound_inter.
+
+(* an initial guess outside the bracket is rejected up front *)
 Theorem c06_init_rejected : forall (f : R -> res R) lo init hi tol cap,
   init < lo \/ hi < init ->
   bisection f {| b_lower := lo; b_init := init; b_upper := hi |} tol cap = Err EXInitOutOfBounds.
@@ -12,5 +49,94 @@ Check c06_init_rejected : forall (f : R -> res R) lo init hi tol cap,
   bisection f {| b_lower := lo; b_init := init; b_upper := hi |} tol cap = Err EXInitOutOfBounds.
 Print Assumptions c06_init_rejected.
 
-Example c06_nonvacuous : (3 < 1 \/ 2 < 3)%R.
-Proof. right; lra. Qed.
+(* corollary: with a reversed bracket every initial guess is rejected *)
+Theorem c06_reversed_rejected : forall (f : R -> res R) lo init hi tol cap,
+  hi < lo -> bisection f {| b_lower := lo; b_init := init; b_upper := hi |} tol cap = Err EXInitOutOfBounds.
+Proof. exact Proofs.Bisect.c06_reversed_rejected. Qed.
+Check c06_reversed_rejected : forall (f : R -> res R) lo init hi tol cap,
+  hi < lo -> bisection f {| b_lower := lo; b_init := init; b_upper := hi |} tol cap = Err EXInitOutOfBounds.
+Print Assumptions c06_reversed_rejected.
+
+(* every Num instance (floats included): never a panic, in particular never [Panic WFuel]:
+   the fuel cap (= at most cap+1 loop bodies) always suffices, and iter <= cap at the exit *)
+Theorem c06_total : forall (T : Type) (NT : Num T) (f : T -> res T) (b : bounds T) (tol : T) (cap : nat),
+  (forall x, no_panic (f x)) ->
+  no_panic (bisection f b tol cap) /\
+  no_panic (bis_loop f tol cap cap (bis_start b)) /\
+  (forall r, bis_loop f tol cap cap (bis_start b) = Ok r -> (bs_iter r <= cap)%nat).
+Proof. exact Proofs.Bisect.c06_total. Qed.
+Check c06_total : forall (T : Type) (NT : Num T) (f : T -> res T) (b : bounds T) (tol : T) (cap : nat),
+  (forall x, no_panic (f x)) ->
+  no_panic (bisection f b tol cap) /\
+  no_panic (bis_loop f tol cap cap (bis_start b)) /\
+  (forall r, bis_loop f tol cap cap (bis_start b) = Ok r -> (bs_iter r <= cap)%nat).
+Print Assumptions c06_total.
+
+(* the two polynomial types never panic, so the extracted entry points never do *)
+Theorem c06_total_poly : forall (T : Type) (NT : Num T) (b : bounds T) (tol : T) (cap : nat) (mode : bool),
+  (forall p : spoly T, no_panic (s_bisection p b tol cap mode)) /\
+  (forall p : ipoly T, no_panic (i_bisection p b tol cap mode)).
+Proof. exact Proofs.Bisect.c06_total_poly. Qed.
+Check c06_total_poly : forall (T : Type) (NT : Num T) (b : bounds T) (tol : T) (cap : nat) (mode : bool),
+  (forall p : spoly T, no_panic (s_bisection p b tol cap mode)) /\
+  (forall p : ipoly T, no_panic (i_bisection p b tol cap mode)).
+Print Assumptions c06_total_poly.
+
+(* a (weak or strict) sign change over the caller's bracket is still inside the final bracket *)
+Theorem c06_bracket_keeps_sign_change : forall (f : R -> res R) lo init hi tol cap r vlo vhi,
+  lo <= hi -> f lo = Ok vlo -> f hi = Ok vhi -> vlo * vhi <= 0 ->
+  bis_loop f tol cap cap (bis_start {| b_lower := lo; b_init := init; b_upper := hi |}) = Ok r ->
+  lo <= bs_lower r /\ bs_lower r <= bs_upper r /\ bs_upper r <= hi /\
+  bs_lower r <= bs_x r <= bs_upper r /\
+  exists a b, f (bs_lower r) = Ok a /\ f (bs_upper r) = Ok b /\ a * b <= 0 /\ (vlo * vhi < 0 -> a * b < 0).
+Proof. exact Proofs.Bisect.c06_bracket_keeps_sign_change. Qed.
+Check c06_bracket_keeps_sign_change : forall (f : R -> res R) lo init hi tol cap r vlo vhi,
+  lo <= hi -> f lo = Ok vlo -> f hi = Ok vhi -> vlo * vhi <= 0 ->
+  bis_loop f tol cap cap (bis_start {| b_lower := lo; b_init := init; b_upper := hi |}) = Ok r ->
+  lo <= bs_lower r /\ bs_lower r <= bs_upper r /\ bs_upper r <= hi /\
+  bs_lower r <= bs_x r <= bs_upper r /\
+  exists a b, f (bs_lower r) = Ok a /\ f (bs_upper r) = Ok b /\ a * b <= 0 /\ (vlo * vhi < 0 -> a * b < 0).
+Print Assumptions c06_bracket_keeps_sign_change.
+
+(* PARTIAL converse: at the loop exit the bracket has been halved once per non-exact body, holds a
+   root z of the continuous target, the candidate is within (hi-lo)/2^iter of z, and is a root on
+   the `exact` exit.  MISSING: that for a moderately scaled target and an ample budget the loop
+   leaves before the cap and the 1e-4 gate passes; that depends on the float stopping rule and is
+   checked by the oracle only (which lists the two failing input classes F-C06-LOOSE-TOL and
+   F-C06-STALE-ZERO). *)
+Theorem c06_finds_root_partial : forall (g : R -> R) lo init hi tol cap r,
+  continuity g -> lo <= hi -> g lo * g hi <= 0 ->
+  bis_loop (fun x => Ok (g x)) tol cap cap (bis_start {| b_lower := lo; b_init := init; b_upper := hi |}) = Ok r ->
+  bs_upper r - bs_lower r = (hi - lo) / 2 ^ (if bs_exact r then bs_iter r else S (bs_iter r)) /\
+  (bs_exact r = true -> g (bs_x r) = 0) /\
+  exists z, g z = 0 /\ lo <= z <= hi /\ bs_lower r <= z <= bs_upper r /\
+            Rabs (bs_x r - z) <= (hi - lo) / 2 ^ bs_iter r.
+Proof. exact Proofs.Bisect.c06_finds_root_partial. Qed.
+Check c06_finds_root_partial : forall (g : R -> R) lo init hi tol cap r,
+  continuity g -> lo <= hi -> g lo * g hi <= 0 ->
+  bis_loop (fun x => Ok (g x)) tol cap cap (bis_start {| b_lower := lo; b_init := init; b_upper := hi |}) = Ok r ->
+  bs_upper r - bs_lower r = (hi - lo) / 2 ^ (if bs_exact r then bs_iter r else S (bs_iter r)) /\
+  (bs_exact r = true -> g (bs_x r) = 0) /\
+  exists z, g z = 0 /\ lo <= z <= hi /\ bs_lower r <= z <= bs_upper r /\
+            Rabs (bs_x r - z) <= (hi - lo) / 2 ^ bs_iter r.
+Print Assumptions c06_finds_root_partial.
+
+(* after repair e42ded6: a root at the lower end is returned *)
+Theorem c06_root_at_lower_end : forall (f : R -> res R) lo init hi tol cap vm,
+  lo <= init <= hi -> f lo = Ok 0 -> f ((lo + hi) / 2) = Ok vm -> (0 < cap)%nat ->
+  bisection f {| b_lower := lo; b_init := init; b_upper := hi |} tol cap = Ok lo.
+Proof. exact Proofs.Bisect.c06_root_at_lower_end. Qed.
+Check c06_root_at_lower_end : forall (f : R -> res R) lo init hi tol cap vm,
+  lo <= init <= hi -> f lo = Ok 0 -> f ((lo + hi) / 2) = Ok vm -> (0 < cap)%nat ->
+  bisection f {| b_lower := lo; b_init := init; b_upper := hi |} tol cap = Ok lo.
+Print Assumptions c06_root_at_lower_end.
+
+(* non-vacuity: x^2 - 4 on [2, 5] (root at the lower end) returns Ok 2, so the hypotheses of
+   c06_sound / c06_sound_simple / c06_root_at_lower_end are satisfiable *)
+Example c06_nonvacuous :
+  s_bisection px2m4 {| b_lower := 2; b_init := 3; b_upper := 5 |} (1 / 100000) 100 false = Ok 2.
+Proof. exact Proofs.Bisect.c06_example_lower_end. Qed.
+
+(* the hypotheses of c06_finds_root_partial are met by every polynomial with a sign change *)
+Example c06_nonvacuous_continuity : continuity (eval_simple px2m4) /\ eval_simple px2m4 0 * eval_simple px2m4 3 <= 0.
+Proof. split; [apply Proofs.Bisect.eval_simple_continuity|]. rewrite !Proofs.Bisect.px2m4_eval. lra. Qed.
